@@ -34,6 +34,7 @@ type State struct {
 	nobj  int // number of objects allocated on this path since nobjBase
 	nobjBase string
 	formal bool // heap components are the formal parameters of a heap-reading spec function
+	iters  map[ssa.Value]string // map-range iterators: set of visited keys (Array K Bool)
 	path  []string
 	dead  bool
 }
@@ -74,6 +75,13 @@ func (s *State) clone() *State {
 	}
 	t.pc = append([]string(nil), s.pc...)
 	t.path = append([]string(nil), s.path...)
+	if len(s.iters) > 0 {
+		t.iters = make(map[ssa.Value]string, len(s.iters))
+		for k, v := range s.iters {
+			t.iters[k] = v
+		}
+	}
+	t.formal = s.formal
 	t.snaps = make(map[string]*State, len(s.snaps))
 	for k, v := range s.snaps {
 		t.snaps[k] = v
@@ -179,18 +187,38 @@ func loopPos(l *Loop) int {
 
 // ---------- heap ----------
 
-func compName(sort string) string {
-	switch sort {
-	case "Int", "Bool", "Str", "Addr", "Slice", "Iface", "Real":
-		return "H_" + sort
+// heap components are keyed by cell type: one per SMT sort, and one per Go integer type (a *int64 never aliases a
+// []byte element; unsafe is outside the subset)
+func compName(key string) string {
+	if strings.HasPrefix(key, "Int:") {
+		return "H_Int_" + sanitize(key[4:])
 	}
-	return "H_" + sanitize(sort)
+	switch key {
+	case "Int", "Bool", "Str", "Addr", "Slice", "Iface", "Real":
+		return "H_" + key
+	}
+	return "H_" + sanitize(key)
 }
 
-func (w *World) comp(st *State, sort string) (name, cur string) {
-	name = compName(sort)
+func compValueSort(key string) string {
+	if strings.HasPrefix(key, "Int:") {
+		return "Int"
+	}
+	return key
+}
+
+func (w *World) compKey(t types.Type) string {
+	if b, ok := t.Underlying().(*types.Basic); ok && b.Info()&types.IsInteger != 0 {
+		// by kind, so that byte/uint8 and rune/int32 share a component
+		return "Int:" + types.Typ[b.Kind()].Name()
+	}
+	return w.sortOf(t)
+}
+
+func (w *World) comp(st *State, key string) (name, cur string) {
+	name = compName(key)
 	if _, ok := w.compSorts[name]; !ok {
-		w.compSorts[name] = sort
+		w.compSorts[name] = compValueSort(key)
 	}
 	cur = w.compByName(st, name)
 	return
@@ -233,7 +261,7 @@ func (w *World) heapLoad(st *State, a string, t types.Type) string {
 	case *types.Array:
 		unsup("load of array value from heap")
 	}
-	_, cur := w.comp(st, w.sortOf(t))
+	_, cur := w.comp(st, w.compKey(t))
 	return app("select", cur, a)
 }
 
@@ -248,7 +276,7 @@ func (w *World) heapStore(st *State, a string, t types.Type, v string) {
 	case *types.Array:
 		unsup("store of array value to heap")
 	}
-	name, cur := w.comp(st, w.sortOf(t))
+	name, cur := w.comp(st, w.compKey(t))
 	st.heap[name] = app("store", cur, a, v)
 }
 
